@@ -344,6 +344,9 @@ def check_single(ctx, mb, where, classify):
         ctx.check("gof/ndf", rd["gof/ndf"] is None, {"got": rd["gof/ndf"], "where": where})
     elif exp_ndf != 0:
         ctx.close("gof/ndf", rd["gof/ndf"], eg / exp_ndf, tol=Tol.LINALG, scale=(abs(eg) + abs(ref.constraint_cost()) + 1.0) / abs(exp_ndf), key=lambda: classify("gof/ndf"), detail={"where": where})
+    else:
+        # no degrees of freedom: the ratio is not defined
+        ctx.check("gof/ndf", rd["gof/ndf"] is None, {"got": rd["gof/ndf"], "expected": None, "ndf": 0, "where": where})
     ctx.eq("result_dict.ndf", int(rd["ndf"]), int(exp_ndf), detail={"where": where})
 
 
